@@ -1404,12 +1404,38 @@ package bpmn
 
 // The remaining node goroutines: message loops that block in a select offering the cancellation alternative and take no
 // further turn once they have observed it (C07).
+// The start event's step: a start message starts exactly one token; an event starts one only while the node has not
+// been passed yet and only when the satisfier says every condition is met; the first token passing gets all outgoing
+// flows, any later one is told that the node is complete.
+//@ func (*startEvent).flow
+//@   prop C01 C11
+//@   flag countcalls
 //@ func (*startEvent).run
-//@   prop C07 C14
+//@   prop C07 C14 C11 C01
 //@   requires evt.satisfier != nil && cesShape(evt.satisfier) && cesDistinct(evt.satisfier) && cesNoneFull(evt.satisfier) && cesCommonBit(evt.satisfier)
 //@   loop 1 for
 //@     cancels ctx
 //@     invariant evt.satisfier == old(evt.satisfier) && cesShape(evt.satisfier) && cesDistinct(evt.satisfier) && cesNoneFull(evt.satisfier) && cesCommonBit(evt.satisfier)
+//@     invariant evt.mch == old(evt.mch)
+//@     iter ensures [a-start-message-starts-exactly-one-token]
+//@       isRecv(ev(old(evlen))) && evch(ev(old(evlen))) == evt.mch && is(evval(ev(old(evlen))), startMessage) ==>
+//@         ndirect(code("(*startEvent).flow")) == old(ndirect(code("(*startEvent).flow"))) + 1
+//@     iter ensures [at-most-one-token-per-step] ndirect(code("(*startEvent).flow")) <= old(ndirect(code("(*startEvent).flow"))) + 1
+//@     iter ensures [an-event-starts-a-token-only-before-the-node-was-passed-and-only-when-every-condition-is-met]
+//@       ndirect(code("(*startEvent).flow")) > old(ndirect(code("(*startEvent).flow"))) ==>
+//@         isRecv(ev(old(evlen))) && evch(ev(old(evlen))) == evt.mch &&
+//@         (is(evval(ev(old(evlen))), startMessage) ||
+//@          (is(evval(ev(old(evlen))), eventMessage) && !old(evt.activated) &&
+//@           ndirectTrue(code("logic|(*CatchEventSatisfier).Satisfy")) == old(ndirectTrue(code("logic|(*CatchEventSatisfier).Satisfy"))) + 1))
+//@     iter ensures [a-satisfying-event-before-the-node-was-passed-starts-a-token]
+//@       ndirectTrue(code("logic|(*CatchEventSatisfier).Satisfy")) > old(ndirectTrue(code("logic|(*CatchEventSatisfier).Satisfy"))) ==>
+//@         ndirect(code("(*startEvent).flow")) == old(ndirect(code("(*startEvent).flow"))) + 1
+//@     iter ensures [the-first-token-passing-gets-the-outgoing-flows-later-ones-are-told-the-node-is-complete]
+//@       isRecv(ev(old(evlen))) && evch(ev(old(evlen))) == evt.mch && is(evval(ev(old(evlen))), nextActionMessage) ==>
+//@         evt.activated &&
+//@         (!old(evt.activated) ==> count(Send, flowAction) == old(count(Send, flowAction)) + 1 && count(Send, completeAction) == old(count(Send, completeAction)) &&
+//@            len(lastval(Send, flowAction).(flowAction).unconditionalFlows) == 0 && lastval(Send, flowAction).(flowAction).response == nil) &&
+//@         (old(evt.activated) ==> count(Send, completeAction) == old(count(Send, completeAction)) + 1 && count(Send, flowAction) == old(count(Send, flowAction)))
 //@ func (*endEvent).run
 //@   prop C07
 //@   loop 1 for
